@@ -170,15 +170,18 @@ static void leaves_of(const Node &n, std::vector<std::pair<unsigned, unsigned>> 
 
 // structural validity of a returned tree against the grammar tables (C02 at the search level)
 static std::string validate(const Node &n, bool root) {
-    if (n.kind == 0) return n.cat < S.T ? "" : "leaf-cat-not-a-tag";
+    // C02.*: the node's category is one the grammar returns for its children's categories; C12.*: label and head direction are those of a result with that category
+    if (n.kind == 0) return n.cat < S.T ? "" : "C02.leaf-cat-not-a-tag";
     if (n.kind == 1) {
-        if (root && S.n > 1) return "unary-at-root";
-        bool ok = false; for (auto &r : S.unary) if (r.x == n.ch[0].cat && r.cat == n.cat && r.label == n.label) ok = true;
-        if (!ok) return "unary-not-licensed";
+        if (root && S.n > 1) return "C02.unary-at-root";
+        bool ok = false, lab = false; for (auto &r : S.unary) if (r.x == n.ch[0].cat && r.cat == n.cat) { ok = true; if (r.label == n.label) lab = true; }
+        if (!ok) return "C02.unary-not-licensed";
+        if (!lab) return "C12.unary-label-not-of-the-creating-rule";
         return validate(n.ch[0], false);
     }
-    bool ok = false; for (auto &r : S.binary) if (r.x == n.ch[0].cat && r.y == n.ch[1].cat && r.cat == n.cat && r.head_left == n.head_left && r.label == n.label) ok = true;
-    if (!ok) return "binary-not-licensed";
+    bool ok = false, lab = false; for (auto &r : S.binary) if (r.x == n.ch[0].cat && r.y == n.ch[1].cat && r.cat == n.cat) { ok = true; if (r.head_left == n.head_left && r.label == n.label) lab = true; }
+    if (!ok) return "C02.binary-not-licensed";
+    if (!lab) return "C12.label-or-head-not-of-the-creating-rule";
     std::string a = validate(n.ch[0], false); if (!a.empty()) return a; return validate(n.ch[1], false);
 }
 
@@ -284,7 +287,7 @@ int main(int argc, char **argv) {
             bool rootok = std::find(S.roots.begin(), S.roots.end(), res.tree.cat) != S.roots.end();
             std::vector<std::pair<unsigned, unsigned>> lv; leaves_of(res.tree, lv);
             bool order = lv.size() == n; for (size_t i = 0; i < lv.size() && order; i++) order = lv[i].first == i;
-            if (!bad.empty() || !rootok || !order) report("C02." + (bad.empty() ? std::string(rootok ? "leaves-not-in-order" : "root-not-allowed") : bad), tree_text(res.tree), E.ctx.bool_val(true));
+            if (!bad.empty() || !rootok || !order) report(bad.empty() ? std::string(rootok ? "C02.leaves-not-in-order" : "C02.root-not-allowed") : bad, tree_text(res.tree), E.ctx.bool_val(true));
             if (S.check_score) { Lin rec = recompute(res.tree) + DEP[res.tree.head][0]; report("C09.reported-score-differs", tree_text(res.tree) + " reported " + res.reported.text() + " recomputed " + sym::lin_text(rec), E.to_expr(res.reported.lin() - rec) != 0); }
             if (S.check_beam) for (auto &l : lv) report("C16.leaf-outside-beam", "word " + std::to_string(l.first) + " tag " + std::to_string(l.second) + " in " + tree_text(res.tree), !admitted_weak(l.first, l.second));
             if (returned.count(key)) report("C10.duplicate-tree", key, E.ctx.bool_val(true));
